@@ -64,6 +64,14 @@ def setup(sess, ctx):
     return self_, sets, (tid_p, tid_v, proc_p, proc_v)
 
 
+def _same_value(a, b):
+    if a is b:
+        return True
+    if isinstance(a, (int, str, bool, float, bytes, type(None))) and isinstance(b, (int, str, bool, float, bytes, type(None))):
+        return type(a) is type(b) and a == b
+    return False
+
+
 def install_contracts(sess, holder):
     it = sess.it
 
@@ -105,6 +113,9 @@ def run_check(run, tier):
         user_fc, user_fsc = fc.inset, fsc.inset
         n_fc, n_fsc = z3.Int('cfg.filter_class.len'), z3.Int('cfg.filter_subclass.len')
         reader = Obj(ClassVal('Reader', None, 'plain'), {})
+        before = dict(self_.fields)
+        ctx.notes['parser_before'] = before
+        ctx.notes['parser_obj'] = self_
         res = it.call(it.lib.getattr_(it, self_, 'traces'), [reader], {})
         # ---- residue
         ctx.oblige('C13/traces/residue.filter_class', z3.BoolVal(self_.fields['filter_class'] is fc and not fc.mutations),
@@ -125,6 +136,24 @@ def run_check(run, tier):
         # ---- selection on an arbitrary trace whose first event is e0
         e0 = arbitrary_kevent(sess, ctx, 'e')
         eid = e0.fields['eventid'].t
+        # ---- the event-level stage (what feeds the pairing machine): a fixed predicate of the record's thread and code
+        # (the commutation lemma's keep(i)) that keeps every record of a requested class and of the kernel-trace class
+        g = arbitrary_kevent(sess, ctx, 'g')
+        gid, gtid = g.fields['eventid'].t, g.fields['tid'].t
+        keeps = []
+        for k, fn in evst:
+            r = it.call(fn, [g], {}) if fn is not None else g
+            t = it.truth(r)
+            keeps.append(z3.BoolVal(t) if isinstance(t, bool) else t)
+        ev_code = z3.And(keeps) if keeps else z3.BoolVal(True)
+        from checks import decoder_checks as _D
+        state_syms = [n for n in _D.sym_names(ev_code) if n.startswith('cfg.threads_pids') or n.startswith('cfg.pids_names')]
+        ctx.oblige('C13/traces/event-filter.depends-only-on-thread-code-and-settings', z3.BoolVal(not state_syms), info={'kind': 'event-filter'})
+        requested = z3.Or(z3.And(n_fc == 0, n_fsc == 0), user_fc(gid / (1 << 24)), user_fsc(gid / (1 << 16)), gid / (1 << 24) == 7,
+                          z3.And(gid / (1 << 24) == 3, user_fc(z3.IntVal(4))))
+        ctx.oblige('C13/traces/event-filter.keeps-every-requested-and-helper-record',
+                   z3.Implies(z3.And(z3.Or(z3.Not(tid_p), gtid == tid_v), requested), ev_code), info={'kind': 'event-filter'})
+        ctx.oblige('C13/traces/event-filter.drops-other-threads', z3.Implies(ev_code, z3.Or(z3.Not(tid_p), gtid == tid_v)), info={'kind': 'event-filter'})
         tcls = ClassVal('AnyTrace', None, 'plain')
         trace = Obj(tcls, {'ktraces': PList([e0])})
         ev_keeps = True
@@ -147,6 +176,12 @@ def run_check(run, tier):
         user_allows = z3.Or(z3.And(n_fc == 0, n_fsc == 0), user_fc(eid / (1 << 24)), user_fsc(eid / (1 << 16)))
         spec = z3.And(z3.Or(z3.Not(tid_p), tid == tid_v), user_allows, process_ok)
         ctx.oblige('C13/traces/selection', code == spec, info={'kind': 'selection'})
+        # ---- no residue anywhere in the parser object: after the request and the evaluation of its stages on arbitrary
+        # elements every attribute is the object it was before (the learned thread tables are reset per request, C02)
+        changed = sorted(k for k in set(before) | set(self_.fields)
+                         if k not in before or k not in self_.fields or not _same_value(before[k], self_.fields[k]))
+        ctx.notes['changed'] = changed
+        ctx.oblige('C13/traces/residue.no-attribute-of-the-parser-object-is-rewritten', z3.BoolVal(not changed), info={'kind': 'residue-object', 'changed': changed})
         return res
 
     try:
@@ -169,7 +204,7 @@ def run_check(run, tier):
             if v.status == 'refuted' and cur['status'] != 'refuted':
                 cur.update(status='refuted', model=v.model, info=ob.info,
                            what={'residue': 'the request changes the caller\'s filter settings', 'selection': 'reported traces differ from the filter specification',
-                                 'shape': 'unexpected pipeline'}.get(ob.info['kind'], ''))
+                                 'shape': 'unexpected pipeline', 'residue-object': 'the request rewrites attributes of the parser object: %s' % ob.info.get('changed'), 'event-filter': 'the record-level filter in front of the pairing machine is not the fixed thread/class filter'}.get(ob.info['kind'], ''))
             elif v.status not in ('proved', 'refuted') and cur['status'] == 'proved':
                 cur.update(status='unknown', detail=v.detail)
     for ob, cur in sorted(agg.items()):
@@ -178,6 +213,10 @@ def run_check(run, tier):
         elif cur['status'] == 'refuted':
             req = concretize(cur.get('model'), cur['info'])
             out = native(req) if req else None
+            if req and not (out and out.get('violates')):
+                out2 = native(dict(req, kind='traces_filters_search'), timeout=600)
+                if out2.get('violates'):
+                    req, out = out2.get('request', req), out2
             known = run.known_for(ob)
             run.add(ob, 'known-finding' if known else 'refuted', cur['backend'], cur['ms'], FN)
             run.violation(ob, {'request': req, 'native': out, 'solver_output': 'sat'}, bool(out and out.get('violates')),
@@ -255,7 +294,8 @@ def concretize(model, info):
     ev = lambda t: solve.model_int(model, t)
     tv = lambda t: z3.is_true(model.eval(t, model_completion=True))
     eid = ev(z3.Int('e.eventid'))
-    cfg = {'filter_tid': ev(z3.Int('cfg.tid')) if tv(z3.Bool('cfg.tid.set')) else None, 'filter_process': None}
+    cfg = {'filter_tid': ev(z3.Int('cfg.tid')) if tv(z3.Bool('cfg.tid.set')) else None,
+           'filter_process': 'procname' if tv(z3.Bool('cfg.process.set')) else None}
     for nm in ('filter_class', 'filter_subclass'):
         f = z3.Function('cfg.%s.has' % nm, I, Bs)
         n = ev(z3.Int('cfg.%s.len' % nm))
